@@ -1208,6 +1208,7 @@ pub fn main(args: &util::Args) {
             max_depth: 1 + i % 3,
             effects: true,
             wildcard_arrays: false,
+            nested_patterns: i % 4 == 1,
         };
         let (src, _) = crate::progen::gen_program(&mut rng, cfg);
         if let Outcome::Ok(c) = util::compile_text(&dir, &src) {
